@@ -86,7 +86,7 @@ def run_variant(v, baseline):
     root = make_copy()
     try:
         err = None
-        if v["kind"] == "seeded":
+        if v["kind"] == "seeded" or v.get("transform") == "patch":
             r = subprocess.run(["git", "apply", "--whitespace=nowarn", v["patch"]], cwd=root, capture_output=True, text=True)
             err = None if r.returncode == 0 else "patch does not apply: %s" % r.stderr.strip()[:200]
         elif v["kind"] == "unrepair":
@@ -172,6 +172,7 @@ def variants_for(prop):
         vs.append(dict(prop=prop, name="benign-%s" % t.replace("_", "-"), kind="benign", transform=t, edits=[]))
     for b in variants.BENIGN_ALL:
         vs.append(dict(b, prop=prop))
+    vs += refactoring_variants(prop)
     vs += unrepair_variants(prop)
     vs += seeded_variants(prop)
     return vs
@@ -198,6 +199,21 @@ def seeded_variants(prop):
             continue
         out.append(dict(prop=prop, name="seeded-%s" % name, kind="seeded", patch=os.path.join(d, "patch.diff"), edits=[], rule=None,
                         expected_exit=SEEDED_EXPECTED.get(name)))
+    return out
+
+
+def refactoring_variants(prop):
+    """behaviour-preserving refactorings written by independent agents (/verif/benign/<name>): run for the property they were
+    written for and for every property whose check consults one of the files they touch"""
+    out = []
+    base = os.path.join(VERIF, "benign")
+    if not os.path.isdir(base):
+        return out
+    for name in sorted(os.listdir(base)):
+        d = os.path.join(base, name)
+        if not os.path.exists(os.path.join(d, "patch.diff")):
+            continue
+        out.append(dict(prop=prop, name="refactoring-%s" % name, kind="benign", transform="patch", patch=os.path.join(d, "patch.diff"), edits=[]))
     return out
 
 
